@@ -10,7 +10,7 @@ import sys
 from abc import ABCMeta, abstractmethod
 from contextlib import contextmanager
 from types import CodeType, FrameType
-from typing import Any, Callable, Dict, Iterator, Optional, Tuple, Union, cast
+from typing import Any, Callable, Dict, Iterator, Optional, Set, Tuple, Union, cast
 
 import opcode
 
@@ -124,7 +124,12 @@ def get_func_in_mro(obj: Any, code: CodeType) -> Optional[Callable[..., Any]]:
 def _has_code(
     func: Optional[Callable[..., Any]], code: CodeType
 ) -> Optional[Callable[..., Any]]:
-    while func is not None:
+    # A chain of wrappers that loops (f.__wrapped__ is f) or never ends (a proxy that
+    # answers every attribute with another proxy) is given up, as inspect.unwrap does.
+    seen: Set[int] = set()
+    limit = sys.getrecursionlimit()
+    while func is not None and id(func) not in seen and len(seen) < limit:
+        seen.add(id(func))
         func_code = getattr(func, "__code__", None)
         if func_code is code:
             return func
